@@ -52,9 +52,9 @@ APPLY_UFUNC_FAMILY = {"np.sin", "np.tanh", "np.add", "np.maximum", "np.abs", "wh
 @st.composite
 def _case(draw, tier):
     big = tier != "quick"
-    fam = draw(sampled_from(["hull", "hull", "solid", "latlon"]))
-    if fam == "hull":
-        mesh = draw(meshgen.hull_mesh(6, 20 if big else 12, partial=False))
+    fam = draw(sampled_from(["hull", "hull", "hull-partial", "solid", "latlon"]))
+    if fam.startswith("hull"):
+        mesh = draw(meshgen.hull_mesh(6, 20 if big else 12, partial=fam == "hull-partial"))
     elif fam == "solid":
         mesh = draw(meshgen.solid_mesh_st())
     else:
